@@ -5,9 +5,9 @@
    emitSelfEvents, `ret` of the last self handler, partial auto acceptance,
    the Exit-veto crash of auto transitions). Proof-free.
 
-   Nondeterminism of Go map iteration is explicit: the order of the states
-   called by an auto mutation comes from an oracle list (one entry per auto
-   mutation, as observed), the resolver topology is an input. *)
+   Nothing depends on Go map iteration any more (fixes of NewAutoMutation and
+   graph.TopologicalSort): the auto mutation calls the candidates in
+   StateNames order and the resolver topology is Resolver.topo_sort. *)
 
 From Coq Require Import List Bool Arith NArith.
 From AMV Require Import Base.ListSet Model.Schema Model.Resolver.
@@ -65,7 +65,8 @@ Record hlentry := {
   hl_binding : nat;
   hl_active : list nat;      (* Machine.ActiveStates(nil) inside the handler *)
   hl_clock : list N;         (* Machine.Time(nil) inside the handler *)
-  hl_results : list result   (* results of the mutations it issued *)
+  hl_results : list result;  (* results of the mutations it issued *)
+  hl_ret : bool              (* what the handler returned (negotiation) *)
 }.
 
 Record txrec := {
@@ -112,13 +113,11 @@ Record st := {
   qtick : N;
   qpending : N;
   actions : list haction;       (* remaining scripted handler actions *)
-  oracle : list (list nat);     (* remaining observed auto-mutation orders *)
   (* logs, newest first *)
   hlog : list hlentry;
   txs : list txrec;
   evs : list tev;
-  crashed : bool;               (* a panic escaped to the caller *)
-  oracle_bad : bool             (* an oracle entry was not a permutation of the candidates *)
+  crashed : bool                (* a panic escaped to the caller *)
 }.
 
 Definition has_handlers (s : st) : bool := negb (Nat.eqb (length (bindings s)) 0).
@@ -132,56 +131,50 @@ Definition mach_not (s : st) (l : list nat) : bool := none_in (active s) (uniq l
 Definition set_queue (s : st) q :=
   {| sc := sc s; topo := topo s; health := health s; exc := exc s; bindings := bindings s;
      qlimit := qlimit s; clock := clock s; active := active s; queue := q;
-     qtick := qtick s; qpending := qpending s; actions := actions s; oracle := oracle s;
-     hlog := hlog s; txs := txs s; evs := evs s; crashed := crashed s; oracle_bad := oracle_bad s |}.
+     qtick := qtick s; qpending := qpending s; actions := actions s;
+     hlog := hlog s; txs := txs s; evs := evs s; crashed := crashed s |}.
 
 Definition set_ticks (s : st) qt qp :=
   {| sc := sc s; topo := topo s; health := health s; exc := exc s; bindings := bindings s;
      qlimit := qlimit s; clock := clock s; active := active s; queue := queue s;
-     qtick := qt; qpending := qp; actions := actions s; oracle := oracle s;
-     hlog := hlog s; txs := txs s; evs := evs s; crashed := crashed s; oracle_bad := oracle_bad s |}.
+     qtick := qt; qpending := qp; actions := actions s;
+     hlog := hlog s; txs := txs s; evs := evs s; crashed := crashed s |}.
 
 Definition set_mach (s : st) cl ac :=
   {| sc := sc s; topo := topo s; health := health s; exc := exc s; bindings := bindings s;
      qlimit := qlimit s; clock := cl; active := ac; queue := queue s;
-     qtick := qtick s; qpending := qpending s; actions := actions s; oracle := oracle s;
-     hlog := hlog s; txs := txs s; evs := evs s; crashed := crashed s; oracle_bad := oracle_bad s |}.
+     qtick := qtick s; qpending := qpending s; actions := actions s;
+     hlog := hlog s; txs := txs s; evs := evs s; crashed := crashed s |}.
 
 Definition set_actions (s : st) a :=
   {| sc := sc s; topo := topo s; health := health s; exc := exc s; bindings := bindings s;
      qlimit := qlimit s; clock := clock s; active := active s; queue := queue s;
-     qtick := qtick s; qpending := qpending s; actions := a; oracle := oracle s;
-     hlog := hlog s; txs := txs s; evs := evs s; crashed := crashed s; oracle_bad := oracle_bad s |}.
-
-Definition set_oracle (s : st) o bad :=
-  {| sc := sc s; topo := topo s; health := health s; exc := exc s; bindings := bindings s;
-     qlimit := qlimit s; clock := clock s; active := active s; queue := queue s;
-     qtick := qtick s; qpending := qpending s; actions := actions s; oracle := o;
-     hlog := hlog s; txs := txs s; evs := evs s; crashed := crashed s; oracle_bad := bad |}.
+     qtick := qtick s; qpending := qpending s; actions := a;
+     hlog := hlog s; txs := txs s; evs := evs s; crashed := crashed s |}.
 
 Definition set_hlog (s : st) h :=
   {| sc := sc s; topo := topo s; health := health s; exc := exc s; bindings := bindings s;
      qlimit := qlimit s; clock := clock s; active := active s; queue := queue s;
-     qtick := qtick s; qpending := qpending s; actions := actions s; oracle := oracle s;
-     hlog := h; txs := txs s; evs := evs s; crashed := crashed s; oracle_bad := oracle_bad s |}.
+     qtick := qtick s; qpending := qpending s; actions := actions s;
+     hlog := h; txs := txs s; evs := evs s; crashed := crashed s |}.
 
 Definition add_tx (s : st) t :=
   {| sc := sc s; topo := topo s; health := health s; exc := exc s; bindings := bindings s;
      qlimit := qlimit s; clock := clock s; active := active s; queue := queue s;
-     qtick := qtick s; qpending := qpending s; actions := actions s; oracle := oracle s;
-     hlog := hlog s; txs := t :: txs s; evs := evs s; crashed := crashed s; oracle_bad := oracle_bad s |}.
+     qtick := qtick s; qpending := qpending s; actions := actions s;
+     hlog := hlog s; txs := t :: txs s; evs := evs s; crashed := crashed s |}.
 
 Definition add_ev (s : st) e :=
   {| sc := sc s; topo := topo s; health := health s; exc := exc s; bindings := bindings s;
      qlimit := qlimit s; clock := clock s; active := active s; queue := queue s;
-     qtick := qtick s; qpending := qpending s; actions := actions s; oracle := oracle s;
-     hlog := hlog s; txs := txs s; evs := e :: evs s; crashed := crashed s; oracle_bad := oracle_bad s |}.
+     qtick := qtick s; qpending := qpending s; actions := actions s;
+     hlog := hlog s; txs := txs s; evs := e :: evs s; crashed := crashed s |}.
 
 Definition set_crashed (s : st) :=
   {| sc := sc s; topo := topo s; health := health s; exc := exc s; bindings := bindings s;
      qlimit := qlimit s; clock := clock s; active := active s; queue := queue s;
-     qtick := qtick s; qpending := qpending s; actions := actions s; oracle := oracle s;
-     hlog := hlog s; txs := txs s; evs := evs s; crashed := true; oracle_bad := oracle_bad s |}.
+     qtick := qtick s; qpending := qpending s; actions := actions s;
+     hlog := hlog s; txs := txs s; evs := evs s; crashed := true |}.
 
 (* ------------------------------------------------------------ clocks *)
 
@@ -292,7 +285,7 @@ Fixpoint call_bindings (s : st) (k : hkey) (bs : list (list hkey)) (bi : nat) : 
       let snap_clock := clock s0 in
       let '(s1, rs) := run_calls s0 (ha_calls a) in
       let e := {| hl_key := k; hl_binding := bi; hl_active := snap_active;
-                  hl_clock := snap_clock; hl_results := rs |} in
+                  hl_clock := snap_clock; hl_results := rs; hl_ret := ha_ret a |} in
       let s2 := set_hlog s1 (e :: hlog s1) in
       if negb (is_final_key k) && negb (ha_ret a) then (s2, false)
       else call_bindings s2 k rest (S bi)
@@ -485,20 +478,14 @@ Definition negotiate (s : st) (t : tstate) : st * tstate * nres :=
   | other => other
   end.
 
-(* NewAutoMutation + PrependMut *)
+(* NewAutoMutation + PrependMut: the Auto states are collected in StateNames
+   order (deterministic since the fix of NewAutoMutation) *)
 Definition prepend_auto (s : st) : st :=
-  let cands := auto_candidates (sc s) (active s) in
-  match cands with
+  match auto_candidates (sc s) (active s) with
   | [] => s
-  | _ =>
-    let '(order, s1) :=
-      match oracle s with
-      | [] => (cands, set_oracle s [] true)
-      | o :: rest => if perm_eqb o cands then (o, set_oracle s rest (oracle_bad s))
-                     else (cands, set_oracle s rest true)
-      end in
-    prepend_mut s1 {| mu_type := MAdd; mu_called := order; mu_auto := true;
-                      mu_check := false; mu_args := false; mu_qtick := 0 |}
+  | cands =>
+    prepend_mut s {| mu_type := MAdd; mu_called := cands; mu_auto := true;
+                     mu_check := false; mu_args := false; mu_qtick := 0 |}
   end.
 
 (* newTransition + emitEvents for one popped mutation.
@@ -653,7 +640,8 @@ Fixpoint run_calls_top (fuel : nat) (s : st) (cs : list api_call) (acc : list ca
     let '(s1, res, ok) := top_api fuel s c in
     let o := {| co_result := res; co_time := clock s1; co_active := active s1;
                 co_qtick := qtick s1; co_ntx := length (txs s1) |} in
-    if ok then run_calls_top fuel s1 r (o :: acc) else (s1, rev (o :: acc), false)
+    if crashed s1 then (s1, rev acc, ok)    (* the panicking call returns nothing *)
+    else if ok then run_calls_top fuel s1 r (o :: acc) else (s1, rev (o :: acc), false)
   end.
 
 Record trace := {
@@ -662,19 +650,17 @@ Record trace := {
   tr_evs : list tev;
   tr_hlog : list hlentry;
   tr_crashed : bool;
-  tr_oracle_bad : bool;
   tr_fuel_ok : bool
 }.
 
 Definition init_st (sch : schema) (tp : list nat) (hl : list nat) (ex : nat)
-  (bs : list (list hkey)) (ql : N) (acts : list haction) (orc : list (list nat)) : st :=
+  (bs : list (list hkey)) (ql : N) (acts : list haction) : st :=
   {| sc := sch; topo := tp; health := hl; exc := ex; bindings := bs; qlimit := ql;
      clock := map (fun _ => 0%N) sch; active := []; queue := []; qtick := 1; qpending := 0;
-     actions := acts; oracle := orc; hlog := []; txs := []; evs := [];
-     crashed := false; oracle_bad := false |}.
+     actions := acts; hlog := []; txs := []; evs := [];
+     crashed := false |}.
 
 Definition run (fuel : nat) (s0 : st) (cs : list api_call) : trace :=
   let '(s1, obs, ok) := run_calls_top fuel s0 cs [] in
   {| tr_calls := obs; tr_txs := rev (txs s1); tr_evs := rev (evs s1);
-     tr_hlog := rev (hlog s1); tr_crashed := crashed s1;
-     tr_oracle_bad := oracle_bad s1; tr_fuel_ok := ok |}.
+     tr_hlog := rev (hlog s1); tr_crashed := crashed s1; tr_fuel_ok := ok |}.
